@@ -42,6 +42,7 @@ GLOBAL_REWRITES = [
     ('R5b', r'(?:crate|gmsol_model)::Error::(\w+)\b', r'E::\1', 'error variant'),
     ('R8a', r'\|_\|', r'|_e|', 'closure parameter must be a variable in Verus'),
     ('R8b', r'\.ok_or_else\(\s*\|\|\s*', r'.ok_or(', 'ok_or_else(|| e) == ok_or(e) for a pure error value'),
+    ('R5g', r'\berr!\(\s*CoreError::(\w+)\s*\)', r'Err(E::Other)', 'anchor `err!(e)` is `Err(error!(e))` (anchor-lang 0.31.1); payload dropped'),
     ('R5c', r'error!\(\s*CoreError::(\w+)\s*\)', r'E::Other', 'anchor error value: payload dropped (no contract depends on the variant)'),
     ('R5d', r'\bCoreError::(\w+)\b', r'E::Other', 'anchor error value: payload dropped'),
     ('R1c', r'gmsol_model::utils::apply_factor::<_,\s*\{\s*constants::MARKET_DECIMALS\s*\}>', 'apply_factor_p', 'monomorphisation at the program instance (u128, 20); primitive-typed glue'),
